@@ -309,7 +309,16 @@ func c06Cases(c *Ctx, w *prove.World, wt wireType, m, u *ssa.Function) {
 			if k == "" {
 				continue
 			}
-			encCase[k] = em.Seq(ed)
+			seq := em.Seq(ed)
+			if prev, dup := encCase[k]; dup && codec.Render(prev) != codec.Render(seq) {
+				// the same buffer format is encoded in two different ways depending on the DATA
+				// (e.g. a terminator appended only when the payload does not already end in 0x00)
+				r.Fail("sym", fmt.Sprintf("%s format %s: one encoding per format", wt.name, k), p.Rel(ed.Pos()), fmt.Sprintf("two different layouts reach the result for this format: [%s] and [%s]; the decoder can only undo one of them", codec.Render(prev), codec.Render(seq)))
+				if len(seq) < len(prev) {
+					continue
+				}
+			}
+			encCase[k] = seq
 		}
 	}
 	eu := codec.NewExt(w, u)
@@ -372,6 +381,7 @@ func c06Cases(c *Ctx, w *prove.World, wt wireType, m, u *ssa.Function) {
 			continue
 		}
 		r.OK("extract", key, pos, "enc ["+codec.Render(enc)+"] dec ["+codec.Render(dec)+"]")
+		c06Terminator(c, m, key, pos, enc)
 		compareLayouts(c, "sym", key, pos, dropConst(enc), dec)
 		checkContig(c, key, pos, dec, 0)
 		if h := delegate[k]; h != nil {
@@ -1070,4 +1080,58 @@ func blockReaches(from, to *ssa.BasicBlock) bool {
 		}
 	}
 	return false
+}
+
+// c06Terminator: in a NUL-terminated alternative (payload bytes followed by a
+// constant 0 byte) the terminator must be emitted on EVERY path that emitted
+// the payload — a terminator skipped "when the payload already ends in 0x00"
+// makes the next field start one byte early.
+func c06Terminator(c *Ctx, m *ssa.Function, key, pos string, enc []codec.Atom) {
+	n := len(enc)
+	if n < 2 || enc[n-1].Kind != "const" || enc[n-1].Expr != "0" || enc[n-1].Width != 1 || enc[n-2].Kind != "bytes" {
+		return
+	}
+	blockAt := func(pp token.Pos) *ssa.BasicBlock {
+		if !pp.IsValid() {
+			return nil
+		}
+		for _, b := range m.Blocks {
+			for _, in := range b.Instrs {
+				if in.Pos() == pp {
+					return b
+				}
+			}
+		}
+		return nil
+	}
+	pb, tb := blockAt(enc[n-2].Pos), blockAt(enc[n-1].Pos)
+	if pb == nil || tb == nil {
+		return
+	}
+	rkey := key + ": terminator emitted whenever the payload is"
+	if pb == tb {
+		c.R.OK("sym", rkey, pos, "payload and terminator are appended in the same block")
+		return
+	}
+	// a path from the payload's block to a return that avoids the terminator's block?
+	seen := map[*ssa.BasicBlock]bool{tb: true}
+	work := []*ssa.BasicBlock{pb}
+	for len(work) > 0 {
+		x := work[len(work)-1]
+		work = work[:len(work)-1]
+		if seen[x] {
+			continue
+		}
+		seen[x] = true
+		if ret, ok := x.Instrs[len(x.Instrs)-1].(*ssa.Return); ok && x != pb {
+			if k, isK := ret.Results[len(ret.Results)-1].(*ssa.Const); isK && k.Value == nil {
+				c.R.Fail("sym", rkey, c.P.Rel(enc[n-1].Pos), "the NUL terminator is appended only on some paths after the payload (a success return at "+c.P.Rel(ret.Pos())+" is reachable without it): a payload for which it is skipped is encoded one byte short, and the following field is mis-framed")
+				return
+			}
+		}
+		for _, su := range x.Succs {
+			work = append(work, su)
+		}
+	}
+	c.R.OK("sym", rkey, pos, "every success path after the payload passes through the terminator")
 }
